@@ -2,6 +2,7 @@
 payload {"inject":[{"months":N, "cl":[13 fr], "hl":..., "pcl":..., "phl":..., "dcl":..., "dhl":..., "daycl":..., "dayhl":...}],
          "profiles":[{"months":N, "loads": synthetic-spec | list}]}"""
 from common import *
+import math
 import numpy as np
 from fractions import Fraction
 from ghedesigner.ground_loads import HybridLoad, first_month_hour, last_month_hour, monthdays
@@ -84,7 +85,11 @@ def run_profile(c):
             "hourly_ext_peak": [max(ext[a:b]) for a, b in month_slices()],
             "hourly_rej_peak_day": [rej[a:b].index(max(rej[a:b])) // 24 for a, b in month_slices()],
             "hourly_ext_peak_day": [ext[a:b].index(max(ext[a:b])) // 24 for a, b in month_slices()],
-            "two_day_cl": h.two_day_hourly_peak_cl_loads, "two_day_hl": h.two_day_hourly_peak_hl_loads}
+            "two_day_cl": h.two_day_hourly_peak_cl_loads, "two_day_hl": h.two_day_hourly_peak_hl_loads,
+            # what the duration's defining equation needs: the hourly series, the short-time response at lags 1..48 h, R_b*, 2 pi k
+            "rej": rej, "ext": ext,
+            "kernel": [float(rn.g_sts(math.log(k * 3600.0 / rn.t_s))) for k in range(1, 49)],
+            "rb": float(bhe.calc_effective_borehole_resistance()), "two_pi_k": 2 * math.pi * bhe.soil.k}
 
 
 def month_slices():
